@@ -40,12 +40,13 @@ CHECKS = {
         level_note=_trust_k + ' The composition over the loops of PtpInstanceState::bmca is a paper step over the three contracts.',
     ),
     'C06': dict(
-        engine='engine-k', technique='Kani/CBMC: representation invariant of ForeignMasterList + per-operation contracts; qualification rule over all sequence-id pairs',
+        engine='engine-k', technique='Kani/CBMC: representation invariant of ForeignMasterList + per-operation contracts; qualification rule over all sequence-id pairs; modular call chain take_best -> reregister -> list -> record checked against recording stubs of each callee',
         design_ref='DESIGN.md section 5, C06',
         level_text=('ForeignMasterList::valid() (non-empty records, ages within 4 intervals, stepsRemoved < 255, sender != own clock, one record per sender) is preserved by '
                     'register / step_age / take_qualified / take_best; a message is handed out only from a record with >= 2 stored messages; the qualification rule equals the spec '
-                    'for every (stored, new) sequence-id pair incl. wrap-around. Open finding: a repeated sequence id is accepted.'),
-        level_note=_trust_k + ' Bounded table generator (<= 2 records x <= 2 messages, fixed payload); capacity case separate; expiry/retention over time are paper steps from the per-step contracts.',
+                    'for every (stored, new) sequence-id pair incl. wrap-around; the Erbest is re-registered with its own age and each level passes (header, message, age) unchanged to the level below, '
+                    'where it becomes the newest stored message; ages grow by exactly the BMCA step. Open finding: a repeated sequence id is accepted.'),
+        level_note=_trust_k + ' Bounded table generator (<= 2 records x <= 2 messages, fixed payload) for the shaped harnesses; purge of a two-message record and removal of one of two records are not discharged (CBMC memory); capacity case separate; expiry/retention over time are paper steps from the per-step contracts.',
     ),
     'C07': dict(
         engine='engine-k', technique='Kani/CBMC frame contracts: complete port+instance view unchanged and no action for every rejected frame class',
